@@ -19,7 +19,8 @@ pub struct EncCase {
     pub ckey_page_kb: u16,
     pub ekey_page_kb: u16,
     /// encoding keys per content key: 0 = exactly 1; 1 = 1..=3; 2 = 1..=8;
-    /// 3 = mostly 1..=3, some up to the page's fit; 4 = as 1, plus one entry with `big_k` keys
+    /// 3 = mostly 1..=3, some up to the page's fit; 4 = as 1, plus one entry with `big_k` keys;
+    /// 5 = the first CKey page is filled exactly to its last byte, all other entries 1 key
     pub multi: u8,
     /// key count of the single big entry for multi == 4 (1..=255)
     pub big_k: u8,
@@ -40,6 +41,7 @@ pub struct EncModel {
     pub ekeys: BTreeMap<[u8; 16], (String, u64)>,
     pub excluded_sentinel: bool,
     pub oversize: bool,
+    pub exact_full_page: bool,
 }
 
 fn size40(r: &mut Rng) -> u64 {
@@ -74,7 +76,7 @@ pub fn expand(c: &EncCase) -> (Vec<CKeyEntryData>, Vec<EKeyEntryData>, EncModel)
             ek.swap(0, 1);
         }
     }
-    let mut model = EncModel { ckeys: BTreeMap::new(), ekeys: BTreeMap::new(), excluded_sentinel, oversize: false };
+    let mut model = EncModel { ckeys: BTreeMap::new(), ekeys: BTreeMap::new(), excluded_sentinel, oversize: false, exact_full_page: false };
     let mut eentries = Vec::with_capacity(ek.len());
     let mut first_spec: Option<usize> = None;
     for k in &ek {
@@ -92,6 +94,19 @@ pub fn expand(c: &EncCase) -> (Vec<CKeyEntryData>, Vec<EKeyEntryData>, EncModel)
         eentries.push(EKeyEntryData { encoding_key: EncodingKey::from_bytes(arr16(k)), espec: ESPECS[si].to_string(), file_size: size });
     }
     let big_at = if c.multi == 4 && !ck.is_empty() { Some(r.below(ck.len() as u64) as usize) } else { None };
+    // multi == 5: the 8 smallest keys get key counts that fill the first page to the last
+    // byte (8*22 + 16*S == page size; the 8th entry has a single key), everything else 1 key
+    let mut exact: BTreeMap<Vec<u8>, usize> = BTreeMap::new();
+    if c.multi == 5 && ck.len() >= 8 {
+        let mut sorted = ck.clone();
+        sorted.sort();
+        let s_total = (cpage - 8 * 22) / 16;
+        for (i, k) in sorted.iter().take(8).enumerate() {
+            let n = if i == 7 { 1 } else { (s_total - 1) / 7 + usize::from(i < (s_total - 1) % 7) };
+            exact.insert(k.clone(), n);
+        }
+        model.exact_full_page = true;
+    }
     let mut centries = Vec::with_capacity(ck.len());
     for (i, k) in ck.iter().enumerate() {
         let n = match c.multi {
@@ -105,13 +120,14 @@ pub fn expand(c: &EncCase) -> (Vec<CKeyEntryData>, Vec<EKeyEntryData>, EncModel)
                     1 + r.below(3) as usize
                 }
             }
-            _ => {
+            4 => {
                 if Some(i) == big_at {
                     (c.big_k as usize).clamp(1, 255)
                 } else {
                     1 + r.below(3) as usize
                 }
             }
+            _ => exact.get(k).copied().unwrap_or(1),
         };
         if 22 + 16 * n > cpage {
             model.oversize = true;
@@ -328,6 +344,7 @@ pub fn check(c: &EncCase) -> Verdict {
         .class_if(model.excluded_sentinel, "excluded-ekey-sentinel")
         .class_if(model.oversize, "oversize-entry-accepted-and-correct")
         .class_if(c.multi >= 2, "many-ekeys-per-ckey")
+        .class_if(model.exact_full_page, "ckey-page-exactly-full")
         .class_if(c.blte, "via-blte")
         .class_if(empty_side, "empty-side-parsed")
 }
